@@ -38,14 +38,12 @@ Proof.
 Qed.
 
 (* ---- sequential histories ----
-   For every history of Put / Get / InsertIfNotExists / CompareAndSwap / CompareAndDelete / TTLGet /
-   Read / TTLRead / QueryTTL / clock advances whose (pKey, cCols) pairs have pairwise distinct
+   For every history of Put / PutBatch / Get / GetBatch / InsertIfNotExists / CompareAndSwap /
+   CompareAndDelete / TTLGet / Read / TTLRead / QueryTTL / clock advances whose (pKey, cCols) pairs have pairwise distinct
    concatenations (K_inj: the cache key pKey++cCols is injective on them - without it: finding F7),
    every output of the cache over the reference storage equals the output of the reference storage
-   alone, except where the storage interface leaves the output open (dont_care).
-   PARTIAL: PutBatch and GetBatch are outside op_domain (they are covered by the correspondence
-   check only). *)
-Theorem cache_transparent_partial :
+   alone, except where the storage interface leaves the output open (dont_care). *)
+Theorem cache_transparent :
   forall (K : bytes * bytes -> Prop),
   (forall k1 k2, K k1 -> K k2 -> make_key (fst k1) (snd k1) = make_key (fst k2) (snd k2) -> k1 = k2) ->
   forall ops, Forall (op_domain K) ops -> transparent_run (mkC ([], 0%Z) [] 0%Z) ops.
@@ -68,7 +66,8 @@ Proof. eexists. split; [vm_compute; reflexivity|]. split; [cbn; tauto|]. split; 
 Example cache_transparent_nonvacuous :
   let K := fun k : bytes * bytes => fst k = [97%N; 97%N] in
   let ops := [OGet [97%N; 97%N] [1%N]; OIns [97%N; 97%N] [1%N] [7%N] 1%Z; OTTLGet [97%N; 97%N] [1%N];
-              OAdvance 1000%Z; OTTLGet [97%N; 97%N] [1%N]; OCad [97%N; 97%N] [] []; OPut [97%N; 97%N] [] []; OGet [97%N; 97%N] []] in
+              OAdvance 1000%Z; OTTLGet [97%N; 97%N] [1%N]; OCad [97%N; 97%N] [] []; OPut [97%N; 97%N] [] []; OGet [97%N; 97%N] [];
+              OGetBatch [97%N; 97%N] [[]; [2%N]]; OPutBatch [([97%N; 97%N], [2%N], [9%N])]; OGetBatch [97%N; 97%N] [[]; [2%N]]] in
   Forall (op_domain K) ops /\
   (forall k1 k2, K k1 -> K k2 -> make_key (fst k1) (snd k1) = make_key (fst k2) (snd k2) -> k1 = k2) /\
   run_cache spec_step (mkC ([], 0%Z) [] 0%Z) ops = run_spec ([], 0%Z) ops.
@@ -80,4 +79,4 @@ Proof.
 Qed.
 
 Print Assumptions no_stale_read_after_completed_write.
-Print Assumptions cache_transparent_partial.
+Print Assumptions cache_transparent.
